@@ -108,7 +108,9 @@ def point_tri_dist(P, A, B, C):
     d = np.minimum(np.minimum(_seg_dist(P, A, B), _seg_dist(P, B, C)), _seg_dist(P, C, A))
     N = np.cross(B - A, C - A)
     nn = (N * N).sum(axis=1)
-    ok = nn > 0
+    # a (nearly) collinear triangle has no usable normal (N is rounding noise): its closed point set is its edges
+    e2 = np.maximum(np.maximum(((B - A) ** 2).sum(axis=1), ((C - B) ** 2).sum(axis=1)), ((A - C) ** 2).sum(axis=1))
+    ok = nn > (1e-10 * e2) ** 2
     nn1 = np.where(ok, nn, 1.0)
     w = P - A
     gamma = (np.cross(B - A, w) * N).sum(axis=1) / nn1
@@ -116,7 +118,7 @@ def point_tri_dist(P, A, B, C):
     alpha = 1.0 - gamma - beta
     inside = ok & (alpha >= 0) & (beta >= 0) & (gamma >= 0)
     dplane = np.abs((w * N).sum(axis=1)) / np.sqrt(nn1)
-    return np.where(inside, dplane, d)
+    return np.where(inside, np.minimum(dplane, d), d)
 
 
 def dist_to_mesh(P, V, F, chunk=200000):
